@@ -1,0 +1,74 @@
+//go:build verif
+
+// Machine-checked contracts for package cobalt (comment-only; see /verif/DESIGN.md).
+
+package cobalt
+
+//@ # A well-formed plugin answer: every offered node has a record, capacities are non-negative.
+//@ pred wfCap(m map[string]*plugintypes.NodeDeployCapacity) =
+//@      (m == nil || allocated(m)) && forall n string :: n in m ==> m[n] != nil && allocated(m[n]) && m[n].Capacity >= 0
+//@ pred distinctCap(m map[string]*plugintypes.NodeDeployCapacity) =
+//@      forall a, b string :: a in m && b in m && a != b ==> m[a] != m[b]
+
+//@ # call runs the plugins in goroutines and gathers their answers: outside the sequential
+//@ # subset, so its contract is assumed (trusted) and listed in evidence. The last clause is the
+//@ # assumed shape of a plugin's GetNodesDeployCapacity answer.
+//@ func call
+//@   trusted
+//@   ensures result1 == nil ==> result0 != nil
+//@   ensures forall p ref :: p in result0 ==> result0[p] != nil && allocated(result0[p])
+//@   ensures forall p ref :: p in result0 ==> wfCap(result0[p].NodeDeployCapacityMap)
+
+//@ func (Manager) mergeCapacity
+//@   requires wfCap(m1) && wfCap(m2)
+//@   ensures[C09.offered,C07]  forall n string :: (n in result) <==> ((m1 == nil || n in m1) && n in m2)
+//@   ensures[C09.wf,C07]       result != nil && fresh(result) && wfCap(result) && distinctCap(result)
+//@   ensures[C09.fresh,C07]    forall n string :: n in result ==> fresh(result[n])
+//@   ensures[C09.cap,C07]      forall n string :: n in result ==>
+//@                               result[n].Capacity == (m1 == nil ? old(m2[n].Capacity) : min(old(m1[n].Capacity), old(m2[n].Capacity)))
+//@   ensures[C09.weighted]  forall n string :: n in result ==>
+//@                               result[n].Weight == (m1 == nil ? 0.0 : old(m1[n].Weight)) + old(m2[n].Weight)
+//@                            && result[n].Usage  == (m1 == nil ? 0.0 : old(m1[n].Usage)) + old(m2[n].Usage) * old(m2[n].Weight)
+//@                            && result[n].Rate   == (m1 == nil ? 0.0 : old(m1[n].Rate)) + old(m2[n].Rate) * old(m2[n].Weight)
+//@   loop 1:
+//@     invariant fresh(resp) && allocated(resp) && resp != nil && m1 == nil
+//@     invariant forall n string :: seen(n) ==> n in m2
+//@     invariant forall n string :: (n in resp) <==> seen(n)
+//@     invariant wfCap(resp) && distinctCap(resp)
+//@     invariant forall n string :: n in resp ==> fresh(resp[n])
+//@     invariant[C09,C07] forall n string :: n in resp ==> resp[n].Capacity == m2[n].Capacity
+//@     invariant[C09] forall n string :: n in resp ==>
+//@                               resp[n].Weight == m2[n].Weight
+//@                            && resp[n].Usage  == m2[n].Usage * m2[n].Weight
+//@                            && resp[n].Rate   == m2[n].Rate * m2[n].Weight
+//@   loop 2:
+//@     invariant fresh(resp) && allocated(resp) && resp != nil && m1 != nil
+//@     invariant forall n string :: seen(n) ==> n in m1
+//@     invariant forall n string :: (n in resp) <==> (seen(n) && n in m2)
+//@     invariant wfCap(resp) && distinctCap(resp)
+//@     invariant forall n string :: n in resp ==> fresh(resp[n])
+//@     invariant[C09,C07] forall n string :: n in resp ==> resp[n].Capacity == min(m1[n].Capacity, m2[n].Capacity)
+//@     invariant[C09] forall n string :: n in resp ==>
+//@                               resp[n].Weight == m1[n].Weight + m2[n].Weight
+//@                            && resp[n].Usage  == m1[n].Usage + m2[n].Usage * m2[n].Weight
+//@                            && resp[n].Rate   == m1[n].Rate + m2[n].Rate * m2[n].Weight
+
+//@ func (Manager) GetNodesDeployCapacity
+//@   ensures[C07.total-nonneg] result2 == nil ==> result1 >= 0
+//@   ensures[C07.total-lower]  result2 == nil ==> forall n string :: n in result0 ==> result0[n] != nil && result1 >= result0[n].Capacity
+//@   ensures[C07.total-sat]    result2 == nil ==> forall n string :: n in result0 && result0[n].Capacity == MaxInt ==> result1 == MaxInt
+//@   ensures[C07.refuse]       result2 != nil ==> result0 == nil && result1 == 0
+//@   loop 1:
+//@     modifies nothing
+//@     invariant resp == nil || (fresh(resp) && allocated(resp) && wfCap(resp) && distinctCap(resp)
+//@                               && forall n string :: n in resp ==> fresh(resp[n]))
+//@   loop 2:
+//@     modifies each r :: exists n string :: n in resp && resp[n] == r
+//@     invariant total >= 0
+//@     invariant resp == nil || (allocated(resp) && wfCap(resp) && distinctCap(resp))
+//@     invariant forall n string :: n in resp ==> resp[n].Capacity == pre(resp[n].Capacity) && resp[n].Weight == pre(resp[n].Weight)
+//@     invariant[C07] forall n string :: seen(n) ==> n in resp
+//@     invariant[C07] forall n string :: seen(n) ==> total >= resp[n].Capacity
+//@     invariant[C09.average] forall n string :: n in resp ==>
+//@            resp[n].Usage == (seen(n) ? pre(resp[n].Usage) / pre(resp[n].Weight) : pre(resp[n].Usage))
+//@         && resp[n].Rate  == (seen(n) ? pre(resp[n].Rate) / pre(resp[n].Weight) : pre(resp[n].Rate))
